@@ -16,6 +16,9 @@ claimed = {
  "C07": ("table-agreement between encoder and decoder extracted from go/ssa (opcode sets, byte layouts, guard intervals vs widths, memo parity, MARK pairing, type agreement)",
          "Decides that the two hand-written opcode tables agree: every emitted opcode has a case; payload byte k carries value>>8k on both sides (found and fixed F1); emission guards fit the decoded width/signedness; memo ids and MEMOIZE stay in lock-step; containers are memoized before contents; operand order of TUPLE2/3; MARKs are closed; container and scalar types agree. Round-trip equality for all values is a behavioural consequence that is not itself decided.",
          "Trusts go/ssa; the extractor recognises the scratch-array + Write idiom and the switch-on-readByte dispatch (other shapes are reported undecided). Lengths/ids < 2^32 assumed."),
+ "C08": ("table agreement pickler/unpickler and AttrNames/Attr, slice-based flow of environment components, re-entrance guard detection, nondeterminism-source reachability over the VTA call graph",
+         "Decides pickler/unpickler agreement on (module, name, arity), that every environment component (Env, ModuleEnv incl. all 5 module parts, Bytecode, Code) flows into the pickled tuple and is consumed by the unpickler, that advertised attribute names are answered, that an open pointer-stable pickler case has a re-entrance guard (found and fixed F7), and that no clock/pid/random/dir-order/address/map-order source is reachable from the function fingerprint.",
+         "Trusts go/ssa + VTA (over-approximate), the starlark fork's ModuleEnv/Env contracts. Termination on deep acyclic data and change-sensitivity of the Starlark compiler's ModuleEnv are not decided."),
  "C09": ("pairing on all paths + lock-set + dominance over go/ssa",
          "Decides slot pairing on every exit (enter/defer exit in run, exit/defer enter in EvaluateTargets, no other mover), capacity only under gate.m with the zero test, Wait and decrement in one critical section, +1/-1 deltas, Signal after increment, work inside a slot, waiting outside, limit = runtime.NumCPU().",
          "Trusts go/ssa and Mutex/Cond semantics; the instantaneous bound follows from these but is not observed."),
